@@ -423,6 +423,9 @@ func fixedLine(tag string, vals []string, width int) string {
 
 func genFixed(t *tape.Tape, o GenOpts) *World {
 	layout := t.Weighted("fl.layout", 3, 2, 3) // by_rows 1 | by_rows 2 | header/footer
+	if o.UnmatchedTrailer {
+		layout = 2
+	}
 	w, sh, enc, bom := newGenWorld(t, "fixed-length", o, false)
 	fn := fieldNames("F", sh.NFields)
 	width := sh.MaxVal + 2
@@ -472,6 +475,11 @@ func genFixed(t *tape.Tape, o GenOpts) *World {
 			return "V010" + ieol + fixedLine("V020", r.Vals, width) + ieol + "V999"
 		}
 		w.Suffix = eol + "Z001" + eol + "Z999"
+		if o.UnmatchedTrailer {
+			// a last line that matches no envelope's header: this reader takes it for the end of the input
+			w.Suffix += eol + UnmatchedTrailerLine
+			w.SetTag("unmatched-trailing-line", "1")
+		}
 		if !o.OwnDataOnly {
 			m.Ctx = []string{"../GLOBAL/h0"}
 		}
@@ -505,6 +513,9 @@ func genFixed(t *tape.Tape, o GenOpts) *World {
 	finish(w, enc, bom)
 	return w
 }
+
+// UnmatchedTrailerLine is a line no generated envelope declares.
+const UnmatchedTrailerLine = "Q000 a line no envelope declares"
 
 func genFixed2(t *tape.Tape, o GenOpts) *World {
 	layout := t.Weighted("fl2.layout", 3, 2, 2, 3) // rows 1 | rows 2 | header/footer | nested
